@@ -28,7 +28,7 @@ inductive TaskCallOrigin (s : Sys) (jo : JobObj) (rj : Job) (c : Call) : Prop
       SameSpec rj1 rj' → c ∈ newCalls s' (handlePendingTasks s' jo rj' tasks1).1 → TaskCallOrigin s jo rj c
   | kill (s1 : Sys) (rj1 : Job) (tasks1 : List Task) (s' : Sys) (rj' : Job) (l : List Call) :
       syncCreateTasks s jo rj (tasks0 s rj) = (s1, some (rj1, tasks1)) → Ext s s' l → SpecLe rj rj1 →
-      SameSpec rj1 rj' → c ∈ newCalls s' (handleKillJob s' rj' tasks1).1 → TaskCallOrigin s jo rj c
+      SameSpec rj1 rj' → c ∈ newCalls s' (handleKillJob s' jo rj' tasks1).1 → TaskCallOrigin s jo rj c
   | force (s1 : Sys) (rj1 : Job) (tasks1 : List Task) (s' : Sys) (rj' : Job) (l : List Call) :
       syncCreateTasks s jo rj (tasks0 s rj) = (s1, some (rj1, tasks1)) → Ext s s' l → SpecLe rj rj1 →
       SameSpec rj1 rj' → c ∈ newCalls s' (handleForceDelete s' jo rj' tasks1).1 → TaskCallOrigin s jo rj c
@@ -56,12 +56,12 @@ theorem handlePending_parallelStatus (s : Sys) (jo : JobObj) (rj : Job) (tasks :
     · obtain ⟨_, _, hm, _⟩ := hon T hT (by omega)
       rw [hm rj' h]; rfl
 
-theorem handleKill_sameSpec (s : Sys) (rj : Job) (tasks : List Task) (rj' : Job)
-    (h : (handleKillJob s rj tasks).2 = some rj') : SameSpec rj rj' := by
-  obtain ⟨l, _, _, _, hon⟩ := handleKillJob_ext s rj tasks
+theorem handleKill_sameSpec (s : Sys) (jo : JobObj) (rj : Job) (tasks : List Task) (rj' : Job)
+    (h : (handleKillJob s jo rj tasks).2 = some rj') : SameSpec rj rj' := by
+  obtain ⟨l, _, _, _, hon⟩ := handleKillJob_ext s jo rj tasks
   by_cases hk : shouldKillJob s.clock rj = true
   · rw [(hon hk).2.1 rj' h]; exact killMark_sameSpec _ _
-  · rw [handleKillJob_eq, if_neg hk] at h; cases h; exact SameSpec.refl _
+  · rw [handleKillJob_not s jo rj tasks (by simpa using hk)] at h; cases h; exact SameSpec.refl _
 
 theorem handleForce_sameSpec (s : Sys) (jo : JobObj) (rj : Job) (tasks : List Task) (rj' : Job)
     (h : (handleForceDelete s jo rj tasks).2 = some rj') : SameSpec rj rj' := by
@@ -81,7 +81,7 @@ theorem syncJobTasks_success (s : Sys) (jo : JobObj) (rj rjOut : Job)
       syncCreateTasks s jo rj (tasks0 s rj) = (s1, some (rj1, tasks1)) ∧
       updateTaskRefStatus s1 (jobKey jo) rj1 tasks1 = (s2, rj2) ∧
       handlePendingTasks s2 jo rj2 tasks1 = (s3, some rj3) ∧
-      handleKillJob s3 rj3 tasks1 = (s4, some rj4) ∧
+      handleKillJob s3 jo rj3 tasks1 = (s4, some rj4) ∧
       handleForceDelete s4 jo rj4 tasks1 = (s5, some rj5) ∧
       syncJobTasks s jo rj = ((updateTaskRefStatus s5 (jobKey jo) rj5 tasks1).1, some (updateTaskRefStatus s5 (jobKey jo) rj5 tasks1).2) ∧
       newCalls s (syncJobTasks s jo rj).1 = newCalls s s1 ++ (newCalls s2 s3 ++ (newCalls s3 s4 ++ newCalls s4 s5)) ∧
@@ -112,9 +112,9 @@ theorem syncJobTasks_success (s : Sys) (jo : JobObj) (rj rjOut : Job)
     | none => cases h
     | some rj3 =>
       simp only at h ⊢ ep hsp hpp
-      obtain ⟨lk, ek, _⟩ := handleKillJob_ext s3 rj3 tasks1
-      have hsk := handleKill_sameSpec s3 rj3 tasks1
-      generalize hr4 : handleKillJob s3 rj3 tasks1 = r4 at *
+      obtain ⟨lk, ek, _⟩ := handleKillJob_ext s3 jo rj3 tasks1
+      have hsk := handleKill_sameSpec s3 jo rj3 tasks1
+      generalize hr4 : handleKillJob s3 jo rj3 tasks1 = r4 at *
       obtain ⟨s4, o4⟩ := r4
       cases o4 with
       | none => cases h
@@ -179,12 +179,12 @@ theorem syncJobTasks_origin (s : Sys) (jo : JobObj) (rj : Job) :
       · exact hpend c h
     | some rj3 =>
       simp only at ep hsp e03 ⊢
-      obtain ⟨lk, ek, _⟩ := handleKillJob_ext s3 rj3 tasks1
-      have hsk := handleKill_sameSpec s3 rj3 tasks1
+      obtain ⟨lk, ek, _⟩ := handleKillJob_ext s3 jo rj3 tasks1
+      have hsk := handleKill_sameSpec s3 jo rj3 tasks1
       have hs3 := hs2.trans (hsp rj3 rfl)
       have hkill : ∀ c ∈ lk, TaskCallOrigin s jo rj c := fun c hc =>
         .kill s1 rj1 tasks1 s3 rj3 _ hcr e03 hle hs3 (by rw [ek.newCalls]; exact hc)
-      generalize handleKillJob s3 rj3 tasks1 = r4 at *
+      generalize handleKillJob s3 jo rj3 tasks1 = r4 at *
       obtain ⟨s4, o4⟩ := r4
       have e04 := e03.trans ek
       cases o4 with
@@ -265,7 +265,7 @@ theorem sync_eq (s : Sys) (jo : JobObj) :
         | false => ((handleTTL u.1 jo u.2).1, u.2, jo.finalizer, false, null2)
         | true =>
           let s3 := (handleTTL u.1 jo u.2).1
-          let null3 := match finalizerStatusInput s3 u.2 jo.finalizer with
+          let null3 := match finalizerStatusInput s3 jo u.2 jo.finalizer with
             | some inp => statusHasNullTime s3 inp
             | none => null2
           match (handleFinalizer s3 jo u.2 jo.finalizer).2 with
@@ -365,6 +365,60 @@ theorem sync_origin (s : Sys) (jo : JobObj) :
       cases o4 with
       | none => exact ⟨⟨_, e04⟩, hall⟩
       | some pr => exact ⟨⟨_, e04⟩, hall⟩
+
+/-- the steps of `sync` after the task stage (status refresh, TTL step, finalizer step) only
+extend the state the task stage left: in particular every timer armed so far is still armed -/
+theorem sync_ext_after_tasks (s : Sys) (jo : JobObj) : ∃ l, Ext (syncTasksStage s jo).1 (sync s jo).1 l := by
+  rw [sync_eq]
+  generalize syncTasksStage s jo = st at *
+  obtain ⟨s1, o⟩ := st
+  cases o with
+  | none => exact ⟨[], Ext.refl _⟩
+  | some rj1 =>
+    simp only
+    obtain ⟨e2, _⟩ := syncJobStatus_ext s1 (jobKey jo) rj1
+    generalize syncJobStatusFromTaskRefs s1 (jobKey jo) rj1 = u at *
+    obtain ⟨s2, rj2⟩ := u
+    simp only at e2 ⊢
+    obtain ⟨lt, et, _⟩ := handleTTL_ext s2 jo rj2
+    generalize handleTTL s2 jo rj2 = r at *
+    obtain ⟨s3, b⟩ := r
+    cases b with
+    | false => exact ⟨_, e2.trans et⟩
+    | true =>
+      simp only at et ⊢
+      obtain ⟨lf, ef, _⟩ := handleFinalizer_ext s3 jo rj2 jo.finalizer
+      generalize handleFinalizer s3 jo rj2 jo.finalizer = f at *
+      obtain ⟨s4, o4⟩ := f
+      cases o4 with
+      | none => exact ⟨_, (e2.trans et).trans ef⟩
+      | some pr => exact ⟨_, (e2.trans et).trans ef⟩
+
+/-- … and likewise the steps of `sync` after the TTL step: the state `handleTTL` left is only
+extended by the finalizer step -/
+theorem sync_ext_after_ttl (s : Sys) (jo : JobObj) (rj1 : Job) (h1 : (syncTasksStage s jo).2 = some rj1) :
+    ∃ l, Ext (handleTTL (syncJobStatusFromTaskRefs (syncTasksStage s jo).1 (jobKey jo) rj1).1 jo
+        (syncJobStatusFromTaskRefs (syncTasksStage s jo).1 (jobKey jo) rj1).2).1 (sync s jo).1 l := by
+  rw [sync_eq]
+  generalize syncTasksStage s jo = st at *
+  obtain ⟨s1, o⟩ := st
+  cases h1
+  simp only
+  generalize syncJobStatusFromTaskRefs s1 (jobKey jo) rj1 = u at *
+  obtain ⟨s2, rj2⟩ := u
+  simp only
+  generalize handleTTL s2 jo rj2 = r at *
+  obtain ⟨s3, b⟩ := r
+  cases b with
+  | false => exact ⟨[], Ext.refl _⟩
+  | true =>
+    simp only
+    obtain ⟨lf, ef, _⟩ := handleFinalizer_ext s3 jo rj2 jo.finalizer
+    generalize handleFinalizer s3 jo rj2 jo.finalizer = f at *
+    obtain ⟨s4, o4⟩ := f
+    cases o4 with
+    | none => exact ⟨_, ef⟩
+    | some pr => exact ⟨_, ef⟩
 
 /-- every call of `SyncOne` comes from `sync` on the cached Job, or is one of the two final Job
 writes (`Update`, `UpdateStatus`) -/
